@@ -4,7 +4,7 @@ W="$1"; D="$2"; SCR=$(mktemp -d /tmp/tryneutral.XXXX); cp /verif/known_findings.
 git -C "$W" checkout -q -- . ; git -C "$W" apply "$D" || { echo "APPLY FAILED $D"; exit 3; }
 bad=0
 for p in C01 C02 C03 C04 C05 C06 C07 C08 C09 C10 C11 C12 C13 C14 C15 C16 C17 C18; do
-  o=$(/verif/bin/cachelint -repo "$W" -verif "$SCR" -prop $p 2>&1); rc=$?
+  o=$(${CL:-/verif/bin/cachelint} -repo "$W" -verif "$SCR" -prop $p 2>&1); rc=$?
   if [ $rc -ne 0 ]; then bad=1; echo "--- $p exit=$rc"; echo "$o" | grep -E "violated|BROKEN|UNDECIDED" | cut -c1-300 | head -6; fi
 done
 [ $bad -eq 0 ] && echo "all 18 green"
